@@ -108,11 +108,11 @@ class C20(Prop):
             "block and time-series writers) on tiny real files for several gulps, with FileWriter.write/cwrite wrapped "
             "from the harness: the bytes on disk after EVERY write call vs header + prefix of the final data; then EVERY "
             "byte-length truncation of the final file (files <= 2 kB; sampled above) opened with the library's reader; a "
-            "subprocess SIGKILLed between writes. Non-trivial = >= 3 write calls; distinct by (writer, depth, shape, gulp).")
+            "subprocess SIGKILLed between writes; a subprocess whose file-size limit cuts a data write short. Non-trivial = >= 3 write calls; distinct by (writer, depth, shape, gulp).")
     assumptions = ["OS-level durability/atomicity of write(2) is outside the model (exercised by the SIGKILL runs only)",
                    "a truncated file is read with read_block (read_plan to the end of a stream with a partial trailing "
                    "sample raises ValueError by design)"]
-    regimes_expected = list(WRITERS) + ["sigkill", "above-1MiB", "over-older-longer-file"]
+    regimes_expected = list(WRITERS) + ["sigkill", "short-write", "above-1MiB", "over-older-longer-file"]
     budget_s = (240, 1500)
 
     def _case(self, rng, writer=None):
@@ -147,6 +147,13 @@ class C20(Prop):
             c = self._case(rng, rng.choice(("invert", "downsample", "subband", "samps", "zerodm")))
             c["kill"] = rng.randint(1, 4)
             cases.append(c)
+        # the device refuses part of a block (file-size limit / full disk): what is left on disk is still header +
+        # a prefix of the result
+        for _ in range(5 if tier == "quick" else 40):
+            c = self._case(rng, rng.choice(("invert", "samps", "zerodm", "tim", "block", "mask", "requantize", "downsample")))
+            c["limit"] = rng.choice((0.3, 0.55, 0.8, 0.97))
+            c.pop("preexist", None)
+            cases.append(c)
         if tier == "quick":
             cases += [self._big(rng, "samps"), self._big(rng)]
         else:
@@ -177,6 +184,8 @@ class C20(Prop):
         p = self._mkinput(case, d)
         if "kill" in case:
             return self._observe_kill(case, d, p)
+        if "limit" in case:
+            return self._observe_limit(case, d, p)
         if case.get("preexist"):
             # the output paths already hold an OLDER, LONGER product (a re-run with a shorter selection): learn the
             # paths with a dry run, then overwrite each with a longer file of foreign bytes
@@ -304,11 +313,60 @@ class C20(Prop):
                 "matches_snapshot": surv is not None and k <= len(snaps) and snaps[k - 1].equals(surv),
                 "nsnaps": len(snaps), "trunc": [] if surv is None else self._truncations(str(surv_path), surv)}
 
+    def _observe_limit(self, case, d, p):
+        """child: run the writer under a file-size limit that cuts one of its data writes short (SIGXFSZ ignored, so
+        the write call itself reports the shortfall); parent: did the call return normally, and what is on disk"""
+        from sigpyproc.readers import FilReader
+        d2 = common.tmpdir()
+        fil = FilReader(str(p))
+        outs = run_writer(fil, case, d2)
+        fil._file.close()
+        ref = open(outs[0], "rb").read()
+        kv = C05._parse(ref)
+        hl = kv[1]
+        lim = hl + max(1, int(case["limit"] * (len(ref) - hl)))
+        code = (
+            "import sys, json, resource, signal; sys.path.insert(0, %r); import common; common.quiet_progress();\n"
+            "from pathlib import Path; from props import c20; from sigpyproc.readers import FilReader\n"
+            "case = json.loads(%r); d = Path(%r); w = Path(%r)\n"
+            "fil = FilReader(%r); c20.run_writer(fil, case, w)\n"          # warm-up: compile caches written before the limit
+            "signal.signal(signal.SIGXFSZ, signal.SIG_IGN)\n"
+            "resource.setrlimit(resource.RLIMIT_FSIZE, (%d, resource.getrlimit(resource.RLIMIT_FSIZE)[1]))\n"
+            "fil = FilReader(%r)\n"
+            "try:\n"
+            "    c20.run_writer(fil, case, d)\n"
+            "except BaseException as e:\n"
+            "    sys.stderr.write('RAISED ' + type(e).__name__); sys.exit(7)\n"
+            "sys.exit(0)\n"
+        ) % (os.path.dirname(os.path.dirname(os.path.abspath(__file__))), __import__("json").dumps(case), str(d),
+             str(common.tmpdir()), str(p), lim, str(p))
+        r = subprocess.run([sys.executable, "-c", code], capture_output=True, text=True, timeout=300, env=dict(os.environ))
+        surv_path = d / os.path.basename(outs[0])
+        surv = surv_path.read_bytes() if surv_path.exists() else None
+        return {"rc": r.returncode, "stderr": r.stderr[-200:], "limit": lim, "ref_len": len(ref), "hdrlen": hl,
+                "surv_len": None if surv is None else len(surv),
+                "is_prefix": surv is not None and ref[:len(surv)] == surv,
+                "trunc": [] if surv is None or len(surv) < hl else self._truncations(str(surv_path), surv)}
+
     # ------------------------------------------------------------------
     def oracle(self, case, obs):
         w = case["writer"]
         if "err" in obs:
             return f"{w} raised {obs['err']}: {obs['msg'][-150:]}"
+        if "limit" in case:
+            if obs["rc"] not in (0, 7):
+                return f"{w}: child under a file-size limit ended with rc {obs['rc']}: {obs['stderr']}"
+            if obs["surv_len"] is None:
+                return f"{w}: no output file under a file-size limit of {obs['limit']} bytes"
+            if not obs["is_prefix"]:
+                return f"{w}: under a file-size limit the {obs['surv_len']} bytes on disk are not a prefix of the full result"
+            # NOT required here: that the call raises.  The property quantifies over crash points and truncations, not
+            # over writes the OS refuses; on the unchanged tree NumPy's tofile swallows the failed flush of a block
+            # smaller than the stdio buffer and the call returns normally (DESIGN §10).  What is on disk must still be
+            # a readable prefix, which is what is checked.
+            if obs["trunc"]:
+                return f"{w}: file left under a file-size limit is not readable as a prefix: {obs['trunc'][0]}"
+            return None
         if "kill" in case:
             if not obs["killed"]:
                 if obs["nsnaps"] < case["kill"]:
@@ -337,7 +395,7 @@ class C20(Prop):
 
     # ------------------------------------------------------------------
     def model_requests(self, case, obs):
-        if "err" in obs or "kill" in case:
+        if "err" in obs or "kill" in case or "limit" in case:
             return []
         reqs = []
         for f in obs["files"]:
@@ -354,18 +412,18 @@ class C20(Prop):
     def regime(self, case, obs):
         if case.get("big"):
             return "above-1MiB"
-        tags = ["sigkill" if "kill" in case else case["writer"]]
+        tags = ["sigkill" if "kill" in case else "short-write" if "limit" in case else case["writer"]]
         if case.get("preexist"):
             tags.append("over-older-longer-file")
         return tags
 
     def nontrivial(self, case, obs):
-        if "kill" in case:
+        if "kill" in case or "limit" in case:
             return True
         return any(len(f["snaps"]) >= 3 for f in obs.get("files", []))
 
     def key(self, case):
-        return str((case["writer"], case["nbits"], case["C"], case["N"], case["g"], case.get("kill")))
+        return str((case["writer"], case["nbits"], case["C"], case["N"], case["g"], case.get("kill"), case.get("limit")))
 
 
 PROP = C20()
